@@ -52,7 +52,7 @@ def _case(draw):
     frac = draw(st.sampled_from([1 / 4.0, 1 / 8.0, 0.1, 0.3, 1.0] if slow else [1 / 4.0, 1 / 8.0, 1 / 16.0, 0.1, 0.3, 1.0, 0.03]))
     nev = draw(st.integers(0, 2))
     # (0.93, 0.97: inside the clipped final step of most runs)
-    events = [dict(frac=draw(st.sampled_from([0.3, 0.5, 0.55, 0.8, 0.93, 0.97])), terminal=draw(st.booleans())) for _ in range(nev)]
+    events = [dict(frac=draw(st.sampled_from([0.3, 0.5, 0.55, 0.8, 0.93, 0.97, 0.0])), terminal=draw(st.booleans())) for _ in range(nev)]
     return dict(part="counters", method=method, dtype="float64", prob=prob, y0=draw(PR.state(prob["shape"])), t0=t0, tf=t0 + direction * L,
                 dt=L * frac, rtol=draw(st.sampled_from([1e-4, 1e-7])), atol=1e-7, dense=draw(st.booleans()), user_jac=draw(st.booleans()),
                 events=events, fault_at=draw(st.sampled_from([None, None, None, 3, 7, 12, 25])), reset_after=draw(st.booleans()),
@@ -228,7 +228,7 @@ def check(case):
             for r_i, (n, tl) in enumerate(rounds):
                 growth = n - prev
                 last_round = r_i == len(rounds) - 1
-                if growth != 1 and not (stopped and last_round and growth >= 0):
+                if growth != 1 and not (stopped and last_round and growth >= 1):
                     viols.append(V("callback_per_step", "{}: between callback rounds {} and {} the trajectory grew by {} samples (from {} to {}){}".format(
                         method, r_i - 1, r_i, growth, prev, n, "; run stopped on a terminal event" if stopped else ""), sig, **attrs))
                     break
